@@ -6,8 +6,6 @@
 use crate::common::{RunResult, Violation};
 use serde::{Deserialize, Serialize};
 use std::collections::{BTreeMap, BTreeSet};
-use std::io::Read;
-use std::os::unix::io::FromRawFd;
 use std::time::Instant;
 
 /// One unit of work: a complete, explicit plan for one world.
@@ -152,14 +150,6 @@ pub enum Outcome {
     Died(String),
 }
 
-struct Child {
-    pid: libc::pid_t,
-    fd: i32,
-    buf: Vec<u8>,
-    idx: usize,
-    started: Instant,
-}
-
 fn child_main(job: &Job, trace: bool, wfd: i32) -> ! {
     unsafe {
         /* hangs and runaway allocations are outcomes of the seed, not of the batch */
@@ -197,62 +187,238 @@ fn child_main(job: &Job, trace: bool, wfd: i32) -> ! {
 /// Run all jobs, at most `workers` at a time; results come back in job order.
 pub fn run_jobs(jobs: &[Job], workers: usize, trace: bool, mut on_done: impl FnMut(usize, &Outcome)) -> Vec<Outcome> {
     let mut results: Vec<Option<Outcome>> = (0..jobs.len()).map(|_| None).collect();
-    let mut active: Vec<Child> = vec![];
-    let mut next = 0;
-    while next < jobs.len() || !active.is_empty() {
-        while next < jobs.len() && active.len() < workers {
-            let mut fds = [0i32; 2];
-            assert_eq!(unsafe { libc::pipe2(fds.as_mut_ptr(), libc::O_CLOEXEC) }, 0);
-            let pid = unsafe { libc::fork() };
-            assert!(pid >= 0, "fork failed");
-            if pid == 0 {
-                unsafe { libc::close(fds[0]) };
-                child_main(&jobs[next], trace, fds[1]);
-            }
-            unsafe { libc::close(fds[1]) };
-            active.push(Child { pid, fd: fds[0], buf: vec![], idx: next, started: Instant::now() });
-            next += 1;
-        }
-        let mut pfds: Vec<libc::pollfd> = active.iter().map(|c| libc::pollfd { fd: c.fd, events: libc::POLLIN, revents: 0 }).collect();
-        unsafe { libc::poll(pfds.as_mut_ptr(), pfds.len() as libc::nfds_t, 1000) };
-        let mut finished = vec![];
-        for (i, p) in pfds.iter().enumerate() {
-            let c = &mut active[i];
-            if p.revents != 0 {
-                let mut tmp = [0u8; 65536];
-                let n = unsafe { libc::read(c.fd, tmp.as_mut_ptr() as *mut libc::c_void, tmp.len()) };
-                if n > 0 {
-                    c.buf.extend_from_slice(&tmp[..n as usize]);
-                } else {
-                    finished.push(i);
-                }
-            } else if c.started.elapsed().as_secs() > 120 {
-                unsafe { libc::kill(c.pid, libc::SIGKILL) };
-            }
-        }
-        for i in finished.into_iter().rev() {
-            let c = active.remove(i);
-            let mut status = 0;
-            unsafe {
-                libc::waitpid(c.pid, &mut status, 0);
-                drop(std::fs::File::from_raw_fd(c.fd));
-            }
-            let out = if libc::WIFSIGNALED(status) {
-                Outcome::Died(format!("killed by signal {}", libc::WTERMSIG(status)))
-            } else {
-                match serde_json::from_slice::<RunResult>(&c.buf) {
-                    Ok(r) => Outcome::Done(r),
-                    Err(_) => Outcome::Died(format!("exit status {} without a result", libc::WEXITSTATUS(status))),
-                }
-            };
-            on_done(c.idx, &out);
-            results[c.idx] = Some(out);
-        }
-    }
+    run_lazy(jobs.len(), &|i| jobs[i].clone(), workers, trace, |i, o| {
+        on_done(i, &o);
+        results[i] = Some(o);
+    });
     results.into_iter().map(|o| o.unwrap()).collect()
 }
 
+fn read_full(fd: i32, buf: &mut [u8]) -> bool {
+    let mut off = 0;
+    while off < buf.len() {
+        let n = unsafe { libc::read(fd, buf[off..].as_mut_ptr() as *mut libc::c_void, buf.len() - off) };
+        if n <= 0 {
+            return false;
+        }
+        off += n as usize;
+    }
+    true
+}
+
+fn write_full(fd: i32, buf: &[u8]) -> bool {
+    let mut off = 0;
+    while off < buf.len() {
+        let n = unsafe { libc::write(fd, buf[off..].as_ptr() as *const libc::c_void, buf.len() - off) };
+        if n <= 0 {
+            return false;
+        }
+        off += n as usize;
+    }
+    true
+}
+
+/// A persistent worker process: takes job indices from `cmd_r`, builds the plan
+/// (`make` is a pure function of the index), runs it in a fresh grandchild and
+/// reports [index u64][wait status i32][length u32][result bytes] on `res_w`.
+fn worker_main(make: &dyn Fn(usize) -> Job, trace: bool, cmd_r: i32, res_w: i32) -> ! {
+    loop {
+        let mut b = [0u8; 8];
+        if !read_full(cmd_r, &mut b) {
+            unsafe { libc::_exit(0) }
+        }
+        let idx = u64::from_le_bytes(b) as usize;
+        let job = make(idx);
+        let mut fds = [0i32; 2];
+        assert_eq!(unsafe { libc::pipe2(fds.as_mut_ptr(), libc::O_CLOEXEC) }, 0);
+        let pid = unsafe { libc::fork() };
+        assert!(pid >= 0, "fork failed");
+        if pid == 0 {
+            unsafe {
+                libc::close(fds[0]);
+                libc::close(cmd_r);
+                libc::close(res_w);
+            }
+            child_main(&job, trace, fds[1]);
+        }
+        unsafe { libc::close(fds[1]) };
+        let started = Instant::now();
+        let mut buf: Vec<u8> = vec![];
+        loop {
+            let mut pfd = libc::pollfd { fd: fds[0], events: libc::POLLIN, revents: 0 };
+            unsafe { libc::poll(&mut pfd, 1, 1000) };
+            if pfd.revents != 0 {
+                let mut tmp = [0u8; 65536];
+                let n = unsafe { libc::read(fds[0], tmp.as_mut_ptr() as *mut libc::c_void, tmp.len()) };
+                if n > 0 {
+                    buf.extend_from_slice(&tmp[..n as usize]);
+                } else {
+                    break;
+                }
+            } else if started.elapsed().as_secs() > 120 {
+                unsafe { libc::kill(pid, libc::SIGKILL) };
+            }
+        }
+        let mut status = 0;
+        unsafe {
+            libc::waitpid(pid, &mut status, 0);
+            libc::close(fds[0]);
+        }
+        let mut msg = Vec::with_capacity(16 + buf.len());
+        msg.extend_from_slice(&(idx as u64).to_le_bytes());
+        msg.extend_from_slice(&status.to_le_bytes());
+        msg.extend_from_slice(&(buf.len() as u32).to_le_bytes());
+        msg.extend_from_slice(&buf);
+        if !write_full(res_w, &msg) {
+            unsafe { libc::_exit(0) }
+        }
+    }
+}
+
+struct Worker {
+    pid: libc::pid_t,
+    cmd_w: i32,
+    res_r: i32,
+    rbuf: Vec<u8>,
+    busy: Option<usize>,
+    dead: bool,
+}
+
+/// Run jobs 0..n, job i being `make(i)`; plans are built and executed in a pool of
+/// persistent worker processes (each run in its own freshly forked grandchild), so
+/// neither plan generation nor fork() is serialised in the supervisor.
+pub fn run_lazy(n: usize, make: &dyn Fn(usize) -> Job, workers: usize, trace: bool, mut on_done: impl FnMut(usize, Outcome)) {
+    if n == 0 {
+        return;
+    }
+    let nw = workers.max(1).min(n);
+    let mut ws: Vec<Worker> = vec![];
+    for _ in 0..nw {
+        let mut c = [0i32; 2];
+        let mut r = [0i32; 2];
+        assert_eq!(unsafe { libc::pipe2(c.as_mut_ptr(), libc::O_CLOEXEC) }, 0);
+        assert_eq!(unsafe { libc::pipe2(r.as_mut_ptr(), libc::O_CLOEXEC) }, 0);
+        use std::io::Write;
+        let _ = std::io::stdout().flush();
+        let pid = unsafe { libc::fork() };
+        assert!(pid >= 0, "fork failed");
+        if pid == 0 {
+            unsafe {
+                libc::close(c[1]);
+                libc::close(r[0]);
+                for w in &ws {
+                    libc::close(w.cmd_w);
+                    libc::close(w.res_r);
+                }
+            }
+            worker_main(make, trace, c[0], r[1]);
+        }
+        unsafe {
+            libc::close(c[0]);
+            libc::close(r[1]);
+        }
+        ws.push(Worker { pid, cmd_w: c[1], res_r: r[0], rbuf: vec![], busy: None, dead: false });
+    }
+    let mut next = 0usize;
+    let mut finished = 0usize;
+    let mut requeue: Vec<usize> = vec![];
+    let mut attempts: BTreeMap<usize, u32> = BTreeMap::new();
+    while finished < n {
+        for w in ws.iter_mut() {
+            if w.busy.is_none() && !w.dead {
+                let idx = if let Some(i) = requeue.pop() {
+                    i
+                } else if next < n {
+                    next += 1;
+                    next - 1
+                } else {
+                    continue;
+                };
+                if write_full(w.cmd_w, &(idx as u64).to_le_bytes()) {
+                    w.busy = Some(idx);
+                } else {
+                    w.dead = true;
+                    requeue.push(idx);
+                }
+            }
+        }
+        if ws.iter().all(|w| w.dead) {
+            /* no worker left: report what remains as harness failures */
+            let mut rest: Vec<usize> = requeue.drain(..).collect();
+            rest.extend(next..n);
+            for i in rest {
+                on_done(i, Outcome::Died("exit status 0 without a result (no worker process left)".into()));
+                finished += 1;
+            }
+            break;
+        }
+        let live: Vec<usize> = (0..ws.len()).filter(|i| !ws[*i].dead).collect();
+        let mut pfds: Vec<libc::pollfd> = live.iter().map(|i| libc::pollfd { fd: ws[*i].res_r, events: libc::POLLIN, revents: 0 }).collect();
+        unsafe { libc::poll(pfds.as_mut_ptr(), pfds.len() as libc::nfds_t, 1000) };
+        for (pi, p) in pfds.iter().enumerate() {
+            if p.revents == 0 {
+                continue;
+            }
+            let w = &mut ws[live[pi]];
+            let mut tmp = [0u8; 65536];
+            let nr = unsafe { libc::read(w.res_r, tmp.as_mut_ptr() as *mut libc::c_void, tmp.len()) };
+            if nr <= 0 {
+                /* the worker process itself went away (not a run: those die in grandchildren) */
+                w.dead = true;
+                if let Some(i) = w.busy.take() {
+                    let a = attempts.entry(i).or_insert(0);
+                    *a += 1;
+                    if *a < 3 {
+                        requeue.push(i);
+                    } else {
+                        on_done(i, Outcome::Died("exit status 0 without a result (worker process died)".into()));
+                        finished += 1;
+                    }
+                }
+                continue;
+            }
+            w.rbuf.extend_from_slice(&tmp[..nr as usize]);
+            while w.rbuf.len() >= 16 {
+                let len = u32::from_le_bytes(w.rbuf[12..16].try_into().unwrap()) as usize;
+                if w.rbuf.len() < 16 + len {
+                    break;
+                }
+                let idx = u64::from_le_bytes(w.rbuf[0..8].try_into().unwrap()) as usize;
+                let status = i32::from_le_bytes(w.rbuf[8..12].try_into().unwrap());
+                let out = if libc::WIFSIGNALED(status) {
+                    Outcome::Died(format!("killed by signal {}", libc::WTERMSIG(status)))
+                } else {
+                    match serde_json::from_slice::<RunResult>(&w.rbuf[16..16 + len]) {
+                        Ok(r) => Outcome::Done(r),
+                        Err(_) => Outcome::Died(format!("exit status {} without a result", libc::WEXITSTATUS(status))),
+                    }
+                };
+                w.rbuf.drain(..16 + len);
+                w.busy = None;
+                on_done(idx, out);
+                finished += 1;
+            }
+        }
+    }
+    for w in &ws {
+        unsafe {
+            libc::close(w.cmd_w);
+        }
+    }
+    for w in &ws {
+        let mut status = 0;
+        unsafe {
+            libc::waitpid(w.pid, &mut status, 0);
+            libc::close(w.res_r);
+        }
+    }
+}
+
 pub fn outcome_violations(job: &Job, o: &Outcome) -> Vec<Violation> {
+    outcome_violations_seed(job.seed(), o)
+}
+
+pub fn outcome_violations_seed(seed: u64, o: &Outcome) -> Vec<Violation> {
     match o {
         Outcome::Done(r) => r.violations.clone(),
         Outcome::Died(why) => {
@@ -265,7 +431,7 @@ pub fn outcome_violations(job: &Job, o: &Outcome) -> Vec<Violation> {
             } else {
                 "C05.worker_died"
             };
-            vec![Violation { property: "C05".into(), kind: kind.into(), detail: format!("worker for seed {} {}", job.seed(), why), step: 0 }]
+            vec![Violation { property: "C05".into(), kind: kind.into(), detail: format!("worker for seed {} {}", seed, why), step: 0 }]
         }
     }
 }
@@ -376,7 +542,7 @@ impl BatchSummary {
             observations: BTreeMap::new(),
         }
     }
-    pub fn add(&mut self, idx: usize, job: &Job, o: &Outcome) {
+    pub fn add(&mut self, idx: usize, seed: u64, o: &Outcome) {
         self.evaluations += 1;
         if let Outcome::Done(r) = o {
             if let Some(e) = &r.harness_error {
@@ -402,7 +568,7 @@ impl BatchSummary {
             self.sim_ms += r.sim_ms;
             self.events += r.events;
         }
-        for v in outcome_violations(job, o) {
+        for v in outcome_violations_seed(seed, o) {
             self.by_kind.entry(v.kind.clone()).or_insert((v, idx));
         }
     }
